@@ -169,7 +169,8 @@ def gen_tsig_edge(rng):
     stale = rng.random() < 0.35
     extra = 6 if stale else 0
     # QNAME length such that 12 + question + OPT + TSIG = limit + delta
-    delta = rng.randint(-12, 12) if rng.random() < 0.8 else rng.randint(-60, 60)
+    r = rng.random()
+    delta = rng.randint(-2, 2) if r < 0.5 else rng.randint(-12, 12) if r < 0.85 else rng.randint(-60, 60)
     if key is None:
         # the key shares the QNAME (compressible in the request and in the response)
         ql = rng.choice([255, 254, rng.randint(150, 255)])
@@ -180,7 +181,10 @@ def gen_tsig_edge(rng):
         ql = max(wire_len(apex) + 2, min(255, want))
         qname = pad_to(rng, apex, ql, b"q")
     what = rng.random()
-    if what < 0.45:
+    if what < 0.15 and not stale:
+        # the QNAME is in no zone of the catalog: REFUSED, a complete signed response without any record
+        z = c04.Z([b"elsewhere"])
+    elif what < 0.45:
         z.add(qname[:len(qname) - len(apex)], 1, 60, c04.a_rd(1))
         if rng.random() < 0.3:
             z.add(qname[:len(qname) - len(apex)], 16, 60, [3, 116, 120, 116])
@@ -229,7 +233,7 @@ def gen(rng, tier, n=None, m=None, e=None, x=None):
     quick = tier == "quick"
     n = n if n is not None else (900 if quick else 30000)
     m = m if m is not None else (8 if quick else 200)
-    e = e if e is not None else (200 if quick else 5000)
+    e = e if e is not None else (300 if quick else 8000)
     x = x if x is not None else (20 if quick else 400)
     # (0) the exact sweep: complete signed response of limit-4 .. limit+4 octets, every offset x times
     for _ in range(x):
@@ -470,16 +474,19 @@ def nontrivial(case, impl, model, oracle):
 
 
 RULE = ("each request is a CORRECTLY SIGNED QUERY built with the crate's own Writer (TsigMode::Request, hmac-sha1 / hmac-sha256, one key "
-        "installed in the server; RD random; no OPT or an OPT advertising 0/511/512/513/700/1232/4096/65535/random octets) and the SAME "
-        "octets are handed to the real server over UDP (response buffer = the server's EDNS size) and over TCP within one second; "
-        "zones: the size-tuned scenarios of C04 (TXT, many A, MX with target addresses, referrals incl. NS target = delegation name, "
-        "CNAME chains ending at a host / nowhere / outside / in a loop, NXDOMAIN with a tuned SOA) re-tuned so that the complete SIGNED "
-        "response is within +-40 octets of the limit in effect, requests whose question + response TSIG RR alone end within +-12 octets "
-        "of the limit (QNAMEs up to 255 octets, key names up to 255 octets), and the nested catalogs of C05; key names of 3..255 octets: "
+        "installed in the server; RD random; no OPT or an OPT advertising 0/511/512/513/700/1232/4096/65535/random octets; 6% - a third "
+        "in the TSIG-edge stream - signed with a time outside the fudge window: SIGNED BADTIME responses with 6 octets of other data) and "
+        "the SAME octets are handed to the real server over UDP (response buffer = the server's EDNS size) and over TCP within one second; "
+        "(0) an exact sweep: one TXT RRset tuned so that the complete signed response is EXACTLY limit-4..limit+4 octets, each offset "
+        "equally often, key names sharing no label with QNAME or zone (nothing compressible); (1) the size-tuned scenarios of C04 (TXT, "
+        "many A, MX with target addresses, referrals incl. NS target = delegation name, CNAME chains ending at a host / nowhere / outside "
+        "/ in a loop, NXDOMAIN with a tuned SOA) re-tuned (replayed until zone sizes and key length agree) so that the complete SIGNED "
+        "response is within +-40 octets of the limit in effect; (2) requests whose question + response TSIG RR alone end within +-2 / +-12 "
+        "octets of the limit (QNAMEs and key names up to 255 octets; QNAME with records / wildcard / delegation / NXDOMAIN / REFUSED); (3) the nested catalogs of C05; key names of 3..255 octets: "
         "unrelated, sharing the apex, equal to / a child of / a sibling of a name in the zone's RDATA (CNAME/NS/MX/SOA targets, biased "
         "to the ones written last), sharing the QNAME. ORACLE-DECIDED (no model of TSIG-bearing octets exists): the extracted "
-        "wf_response (C02) and pair_check_signed (C04) run on the implementation's responses; a panic/timeout/bad line is a violation; "
-        "non-trivial = TC, optional records omitted, or complete response within 40 octets of the limit")
+        "wf_response (C02) and pair_check_signed (C04) run on the implementation's responses, C01 requires two responses; a "
+        "panic/timeout/bad line is a violation; non-trivial = TC, optional records omitted, or complete response within 40 octets of the limit")
 
 
 def classify_c04(case, impl, model, oracle):
